@@ -62,7 +62,7 @@ From Thunder Require Import Lib.Json Federation.Merge Federation.Normalize Feder
   Federation.NormalizeProofs Federation.PlannerProofs Federation.ExecutorProofs Federation.FedWitness
   Federation.FedBase Federation.FedSem Federation.FedPlanSem Federation.Premises Federation.NormSem
   Federation.Transparency Federation.PlannerTotal Federation.Check06
-  Federation.StitchProofs Federation.Refresh Federation.RefreshProofs.
+  Federation.StitchProofs Federation.Refresh Federation.RefreshProofs Federation.MergeProofsKeys Federation.Compose.
 Import ListNotations.
 Open Scope string_scope.
 
@@ -500,3 +500,58 @@ Example one_snapshot_nonvacuous :
   delivered 2 (gw_run rw rpick false trace_ok (gw_init rg0)) = Some (fed_exec rw rg1 rpick false true rq2) /\
   steps_needed rw rpick rg0 rq1 = 1 /\ steps_needed rw rpick rg1 rq2 = 2.
 Proof. exact RefreshProofs.one_snapshot_nonvacuous. Qed.
+
+(* ---------------------------------------------------------------------------------------------------------- *)
+(** C09 COMPOSED WITH C06 (Federation/Compose.v).  [subquery_closed] assumes [fed_ok g]: who has _federation on
+    what, and that whoever has it serves the federated keys.  For the gateway's view [gschema_of per m] computed
+    from the per-service schemas [per] (each the intersection of the service's versions) and their union [m] as
+    ConvertVersionedSchemas records it -- owners of a field = [Merge.field_services], federated keys of (object,
+    service) = the input fields of the argument of Federation.<service>_<Object> -- these clauses are
+    CONSEQUENCES of what C09's model of ConvertVersionedSchemas accepts ([fedobjs_ok] = validateFederatedObjects,
+    [fedkeys_ok] = validateFederationKeys; both compared with the implementation's verdict on every C09 run), by
+    C09's theorems federated_objects_accepted_are_federated_everywhere, federation_keys_accepted_are_exposed and
+    union_complete: *)
+
+(** whoever serves a field of an object that some service federates has _federation on that object *)
+Theorem accepted_federation_owner_federates :
+  forall per m,
+    (forall sv, In sv per -> wf_schema (snd sv) = true) -> merge_slice Union (map snd per) = Some m ->
+    fedobjs_ok per m = true ->
+    forall svc ty f, visible ty = true -> ty <> "Query" -> ty <> "Mutation" ->
+      owns (gschema_of per m) svc ty f = true -> federated_somewhere per ty = true ->
+      owns (gschema_of per m) svc ty federation_field = true.
+Proof. exact Compose.accepted_owner_federates. Qed.
+Print Assumptions accepted_federation_owner_federates.
+
+(** whoever has _federation on an object serves every field any service uses as a federated key of it: the
+    key selection planObject adds, and the key runOnService sends, only use fields the receiver exposes *)
+Theorem accepted_federation_keys_are_served :
+  forall per m,
+    (forall sv, In sv per -> wf_schema (snd sv) = true) -> merge_slice Union (map snd per) = Some m ->
+    fedkeys_ok per m = true ->
+    forall ty asker ks svc, visible ty = true -> In (ty, asker, ks) (g_fkeys (gschema_of per m)) ->
+      owns (gschema_of per m) svc ty federation_field = true ->
+      forall k, In k ks -> owns (gschema_of per m) svc ty k = true.
+Proof. exact Compose.accepted_keys_served. Qed.
+Print Assumptions accepted_federation_keys_are_served.
+
+(** a field a service owns in the gateway's view is a field of that service's own version-intersected schema --
+    the schema of which C09's intersection_sound says: what validates against it validates against every live
+    version of the service.  With [subquery_closed]: every sub-query is accepted by every live version. *)
+Theorem owned_field_is_in_the_service_schema :
+  forall per m svc ty f,
+    owns (gschema_of per m) svc ty f = true -> exists s, In (svc, s) per /\ has_field s ty f = true.
+Proof. exact Compose.owned_field_is_in_the_service_schema. Qed.
+Print Assumptions owned_field_is_in_the_service_schema.
+
+(** Non-vacuity: two services that both federate A and ask for its id; s1 serves Query.a and A.x, s2 serves A.y;
+    the model of ConvertVersionedSchemas accepts, and the gateway's view computed from it satisfies all of [fed_ok]. *)
+Example accepted_federation_nonvacuous :
+  exists m, merge_slice Union (map snd cw_per) = Some m /\
+    wf_schema cw_s1 = true /\ wf_schema cw_s2 = true /\ fedobjs_ok cw_per m = true /\ fedkeys_ok cw_per m = true /\
+    federated_somewhere cw_per "A" = true /\
+    owns (gschema_of cw_per m) "s2" "A" "y" = true /\ owns (gschema_of cw_per m) "s1" "A" "y" = false /\
+    owns (gschema_of cw_per m) "s2" "A" federation_field = true /\
+    g_fkeys (gschema_of cw_per m) = [("A", "s1", ["id"]); ("A", "s2", ["id"])] /\
+    fed_ok (gschema_of cw_per m) = true.
+Proof. exact Compose.compose_witness. Qed.
